@@ -2,6 +2,10 @@
 # eval_mutant.sh <patch.diff> <ID> [<ID>...]: apply a seeded change to /repo, run the quick checks,
 # print their exit codes and VIOLATION lines, and undo the change straight afterwards.
 P="$1"; shift
+# hold the /repo lock (see /verif/check) for as long as the change is applied
+if [ -z "${AXVERIF_LOCK_HELD:-}" ]; then
+  mkdir -p /verif/target; exec 9>/verif/target/.repo.lock; flock 9; export AXVERIF_LOCK_HELD=1
+fi
 cd /repo || exit 2
 git diff --quiet || { echo "/repo is not clean"; exit 2; }
 git apply "$P" || { echo "patch does not apply to /repo"; exit 2; }
